@@ -104,3 +104,10 @@ void h_wait(void) { init_any(1, 0); fiber_multi_signal_wait(&S); verif_sync(-1);
   VASSERT(!G.yield_bad && ((G.kind == K_CONSUME && G.yields == 0) || (G.kind == K_ENQUEUE && G.yields == 1 && ME.scratch == 0)) && MYNODE.data == &ME,
           "H: wait either consumes a pending raise without sleeping, or registers itself and parks exactly once (WAITING, marker location handed over), clearing the marker afterwards");
   VCANARY("wait can return"); }
+/* init: from ANY memory content the signal starts with no waiter, not raised, stamp 0 */
+void h_init(void) {
+  static fiber_multi_signal_t X __attribute__((aligned(16))); memset(&X, (int)verif_u64(), sizeof(X));
+  fiber_multi_signal_init(&X);
+  VASSERT(X.data.head == 0 && X.data.counter == 0, "H: C20 multi signal init: no waiter, not raised, stamp 0, whatever the memory held");
+  VCANARY("multi signal init can return");
+}
